@@ -37,6 +37,8 @@ def run(model, res, tier):
     res.rule('R8', 'turning an error object into its code cannot raise: a __str__ the error class defines returns text for every way an '
              'error object can have been built (no argument, a non-text argument, several arguments)')
     res.rule('R7', 'event delivery runs over a snapshot of the listener list: a listener that subscribes (itself) during delivery cannot make the evaluation run forever (shared with C20.R1)')
+    res.rule('R9', 'no lock that its holder cannot take a second time (threading.Lock, a semaphore of one) is held while listeners or custom '
+             'functions run: a callback that evaluates on the same parser would wait for ever (lock analysis shared with C03.R2)')
     res.assumptions += ['A1 host lists are finite; str() of a raised exception does not raise',
                         'A4 stdlib iterables other than itertools.count/cycle/repeat are finite',
                         'A6 KeyboardInterrupt/SystemExit are not "raising callbacks"']
@@ -58,6 +60,8 @@ def run(model, res, tier):
             methods = dict((n.name, n) for n in em_c.body if isinstance(n, ast.FunctionDef))
             c20._r1(model, tmp, em_m, em_c, methods, c20.storage_attr(em_m, em_c, methods))
     H.borrow(res, 'R7', 'event delivery', delivery)
+    from . import c03
+    H.borrow(res, 'R9', 'locks', lambda tmp: c03.shared_locks(model, tmp, c, 'R9', reentry=True))
 
 
 # ---------------------------------------------------------------------------------------------------
